@@ -208,4 +208,95 @@ theorem sigma0_coherent (c : CaseM) : Coherent (caseCfg c) sigma0 := by
   have h3 : typeCell t ≠ uniqCell := by show (11 + 3 * t : Nat) ≠ 2; omega
   simp [sigma0, h1, h2, h3]
 
+theorem cacheU_mem (c : CaseM) (x : Nat) (h : x ∈ (caseCfgU c).cache) : x = 2 ∨ (10 ≤ x ∧ x % 3 = 2) := by
+  simp only [caseCfgU, List.mem_cons, List.mem_map] at h
+  rcases h with rfl | ⟨o, _, rfl⟩
+  · left; rfl
+  · right; show 10 ≤ 11 + 3 * o.genType ∧ (11 + 3 * o.genType) % 3 = 2; omega
+
+theorem opActs_cleanU (c : CaseM) (tid : Nat) (o : OpM) (ho : o ∈ c.ops) :
+    ∀ a ∈ opActs tid o, cleanAct (caseCfgU c) (syncOf a) = true := by
+  intro a ha
+  have rd : ∀ x : Nat, x ≠ 2 → x % 3 ≠ 2 ∨ x < 10 → cleanAct (caseCfgU c) (syncOf (.read x)) = true := by
+    intro x h2 h3
+    have : x ∉ (caseCfgU c).cache := fun hm => by
+      rcases cacheU_mem c x hm with h | ⟨h, h'⟩
+      · exact h2 h
+      · omega
+    simp [syncOf, cleanAct, this]
+  simp only [opActs, List.mem_append] at ha
+  rcases ha with ((((((ha | ha) | ha) | ha) | ha) | ha) | ha) | ha
+  · simp only [List.mem_singleton] at ha; subst ha; exact rd 0 (by decide) (Or.inr (by decide))
+  · split at ha
+    · simp only [List.mem_singleton] at ha; subst ha; exact rd 1 (by decide) (Or.inr (by decide))
+    · simp at ha
+  · split at ha
+    · obtain ⟨d, rfl, _, _⟩ := mem_readsFrom (sliceCell o.item) _ _ a ha
+      refine rd _ ?_ (Or.inl ?_)
+      · show (12 + 3 * (64 * o.item + d) : Nat) ≠ 2; omega
+      · show (12 + 3 * (64 * o.item + d) : Nat) % 3 ≠ 2; omega
+    · simp at ha
+  · split at ha
+    · simp only [List.mem_map] at ha
+      obtain ⟨p, _, rfl⟩ := ha
+      have hn : patCell p ∉ (caseCfgU c).cache := fun hm => by
+        rcases cacheU_mem c _ hm with h | ⟨_, h'⟩
+        · have : (10 + 3 * p : Nat) = 2 := h; omega
+        · have : (10 + 3 * p : Nat) % 3 = 2 := h'; omega
+      simp [syncOf, cleanAct, hn]
+    · simp at ha
+  · split at ha
+    · simp only [List.mem_singleton] at ha; subst ha
+      simp [syncOf, cleanAct, caseCfgU, uniqCell]
+    · simp at ha
+  · split at ha
+    · simp only [List.mem_singleton] at ha; subst ha
+      have hm : typeCell o.genType ∈ (caseCfgU c).cache := by
+        simp only [caseCfgU, List.mem_cons, List.mem_map]
+        exact Or.inr ⟨o, ho, rfl⟩
+      have hne : (typeCell o.genType == uniqCell) = false := by
+        have : (11 + 3 * o.genType : Nat) ≠ 2 := by omega
+        simpa [typeCell, uniqCell] using this
+      have hl : (caseCfgU c).det.lookup (typeCell o.genType) = some (o.genType + 1) := by
+        simp only [caseCfgU, List.lookup_cons, hne]
+        exact det_lookup_mem c.ops o ho
+      simp [syncOf, cleanAct, hm, hl]
+    · simp at ha
+  · split at ha
+    · simp only [List.mem_singleton] at ha; subst ha; exact rd 3 (by decide) (Or.inr (by decide))
+    · simp at ha
+  · split at ha
+    · simp only [List.mem_singleton] at ha; subst ha; exact rd 4 (by decide) (Or.inr (by decide))
+    · simp at ha
+
+theorem caseTrace_cleanU (c : CaseM) : CleanTrace (caseCfgU c) (mapTrace (caseTrace c)) := by
+  intro x hmem
+  simp only [mapTrace, List.mem_map] at hmem
+  obtain ⟨y, hy, rfl⟩ := hmem
+  refine schedule_all (fun a => cleanAct (caseCfgU c) (syncOf a) = true) _ _ _ ?_ y hy
+  intro t ht a ha
+  simp only [caseThreads, List.mem_map] at ht
+  obtain ⟨j, _, rfl⟩ := ht
+  simp only [threadActs, List.mem_flatMap] at ha
+  obtain ⟨r, _, ha⟩ := ha
+  simp only [getOp] at ha
+  cases hget : c.ops[(j + r) % c.ops.length]? with
+  | none => simp [hget] at ha
+  | some o =>
+    simp only [hget] at ha
+    exact opActs_cleanU c j o (List.mem_of_getElem? hget) a ha
+
+theorem sigmaU_coherent (c : CaseM) : Coherent (caseCfgU c) sigmaU := by
+  intro x d hd
+  left
+  simp only [caseCfgU, List.lookup_cons] at hd
+  split at hd
+  · rename_i h
+    have : x = 2 := by simpa [uniqCell] using h
+    subst this; rfl
+  · obtain ⟨t, rfl, _⟩ := det_lookup_some c.ops x d hd
+    have h1 : typeCell t ≠ docCell := by show (11 + 3 * t : Nat) ≠ 0; omega
+    have h2 : typeCell t ≠ routerCell := by show (11 + 3 * t : Nat) ≠ 1; omega
+    simp [sigmaU, h1, h2]
+
 end KinModel.Conc
